@@ -5,9 +5,12 @@ import (
 	"go/token"
 	"go/types"
 	"math/big"
+	"os"
 	"runtime"
 	"sort"
+	"strconv"
 	"strings"
+	"time"
 
 	"gosmt/internal/smt"
 	"gosmt/internal/term"
@@ -164,6 +167,20 @@ func (p *Path) resync() {
 }
 
 func (p *Path) check(extra *term.T, want []*term.T) (smt.Result, []*big.Int) {
+	if slowLogMs > 0 {
+		t0 := time.Now()
+		defer func() {
+			if d := time.Since(t0); d > time.Duration(slowLogMs)*time.Millisecond {
+				fmt.Fprintf(os.Stderr, "slow query %.1fs at %s (pc=%d)\n", d.Seconds(), p.where(), len(p.pc))
+			}
+		}()
+	}
+	return p.check1(extra, want)
+}
+
+var slowLogMs, _ = strconv.Atoi(os.Getenv("GOSMT_SLOW"))
+
+func (p *Path) check1(extra *term.T, want []*term.T) (smt.Result, []*big.Int) {
 	// portfolio: primary (bit-vector) solver with a short limit, then the
 	// integer-encoding back end, then the primary with the long limit.
 	p.S.SetTimeout(p.H.FastMs)
